@@ -13,7 +13,21 @@ sh("git -C %s checkout -q --detach %s && git -C %s checkout -- . && git -C %s cl
 if not os.path.exists(PLAIN + "/build.ninja"):
     sh('cmake -G Ninja -S %s -B %s -DCMAKE_BUILD_TYPE=Release -DCMAKE_CXX_FLAGS="-Wno-error" -DINTERVAL_LIB=gaol -DLP_LIB=none' % (WT, PLAIN))
 res = {"seed": seed}
+try: HOOKS_DEMO = json.load(open(seed + "/meta.json")).get("demo_build") == "hooks"
+except Exception: HOOKS_DEMO = False
 def build_demo():
+    if HOOKS_DEMO:   # the demo observes the library through the guarded hooks: build it against a hooks-enabled build of the worktree
+        HB = "/tmp/seedwt_hooks"
+        if not os.path.exists(HB + "/build.ninja"):
+            sh('cmake -G Ninja -S %s -B %s -DCMAKE_BUILD_TYPE=Release -DCMAKE_CXX_FLAGS="-Wno-error -DIBEX_VERIF_HOOKS" -DINTERVAL_LIB=gaol -DLP_LIB=none' % (WT, HB))
+        rc, out = sh("ninja -C %s ibex" % HB)
+        if rc: return None, out[-500:]
+        txt = open(HB + "/build.ninja").read()
+        import re
+        inc = re.search(r"ibex_Interval\.cpp\.o:.*?\n(?:  .*\n)*?  INCLUDES = (.*)", txt).group(1)
+        rc, out = sh("g++ -O1 -std=gnu++11 -msse3 -frounding-math -w -DIBEX_VERIF_HOOKS %s %s/demo.cpp -o /tmp/seed_demo %s/src/libibex.a %s/interval_lib_wrapper/gaol/gaol-4.2.3alpha0-build/libgaol.a %s/interval_lib_wrapper/gaol/mathlib-2.1.1-build/libultim.a -ldl" % (inc, seed, HB, HB, HB))
+        if rc: return None, out[-500:]
+        rc, out = sh("timeout 300 /tmp/seed_demo"); return rc, out[-300:]
     txt = open(PLAIN + "/build.ninja").read()
     import re
     inc = re.search(r"ibex_Interval\.cpp\.o:.*?\n(?:  .*\n)*?  INCLUDES = (.*)", txt).group(1)
